@@ -78,6 +78,14 @@ CHECKS["C13"] = dict(
          "the harness executes it on one object, each step also on freshly built objects, and re-digests every earlier result after every step; the monitor tracks the validity epoch of each result and evaluates SameAsFresh and Stable at every event.",
     note="Trusts sha1 digests of result fields as the observation, the harness's construction of the 'fresh' configuration, TLC. Small alphabets (3 faces, 2-4 texts, 3 paragraphs); history length bounded.")
 
+CHECKS["C16"] = dict(
+    engine="fidx",
+    technique="TLA+ model of file system + incremental scan + non-atomic cache write (FontIndex.tla) model-checked for RefreshEqScratch and its inductive support; its behaviours (histories) are printed by TLC, executed on the real scanner in a temp directory, and validated step by step by the FontIndexV monitor, together with an exhaustive truncation / corruption sweep of the serialized index",
+    category="model_checking", design_ref="DESIGN.md §5 C16",
+    text="TLC explores every history of file operations, refreshes, saves, crashes and loads up to length D over 2 paths x 3 contents and checks the mtime-keyed reuse rule against 'refresh = scan from scratch' (with the monotone-clock assumption explicit). "
+         "Each history ending in a refresh is replayed with real font files; the monitor re-steps the file-system model and checks ScratchExact, RefreshEqScratch, RoundTrip, TornSafe/TornWellFormed at Load, and for every prefix and sampled byte flips of a serialized index: no panic, prefix decodes to error or the same index, and a scan after any successful read equals the scratch scan.",
+    note="Trusts os.Chtimes as the clock, sha1 digests of serialized footprints, TLC. Symlinks/permissions and concurrent writers are not modelled. Byte flips are sampled in the quick tier (every third byte), all bytes in thorough.")
+
 NOT_YET = {}
 NA = {
  "C05": "defined as agreement with the reference C HarfBuzz; no reference shaper (uharfbuzz/hb-shape) exists in this sealed sandbox and re-specifying HarfBuzz in TLA+ would make the spec the reference (DESIGN §6)",
